@@ -1,0 +1,93 @@
+//go:build verif
+
+// Contracts for the deductive verifier in /verif (govc); comments only.
+package obfs2
+
+// MAC(s, x) = SHA256(s | x | s)   (obfs2 protocol specification)
+//@ func mac(s, x) (res)
+//@   serves C14 C10
+//@   ensures [C14:mac_is_h_s_x_s] seq(res) == HASH(2, empty, cat(seq(s), seq(x), seq(s))) && len(res) == 32 && fresh(res)
+
+//@ func hsKdf(magic, seed) (k, iv)
+//@   serves C14 C10
+//@   ensures [C14:key_iv_split] len(k) == 16 && len(iv) == 16 && seq(k) == sub(HASH(2, empty, cat(seq(magic), seq(seed), seq(magic))), 0, 16) && seq(iv) == sub(HASH(2, empty, cat(seq(magic), seq(seed), seq(magic))), 16, 32)
+//@   ensures fresh(k) && fresh(iv)
+
+// an established direction: a CTR stream on top of the raw connection
+//@ pred txOK(conn) := conn.tx != nil && conn.tx.S != nil && conn.tx.W == conn.Conn && whole(conn.tx)
+//@ pred rxOK(conn) := conn.rx != nil && conn.rx.S != nil && conn.rx.R == conn.Conn && whole(conn.rx)
+
+//@ func (*obfs2Conn).kdf(conn, seed, peerSeed) (err)
+//@   serves C14 C10
+//@   requires conn != nil && conn.Conn != nil && whole(conn) && conn.tx != nil && conn.rx != nil && whole(conn.tx) && whole(conn.rx) && conn.tx.W == conn.Conn && conn.rx.R == conn.Conn
+//@   requires len(seed) == 16 && len(peerSeed) == 16
+//@   modifies conn.tx.S, conn.rx.S
+//@   ghost COMB := ite(conn.isInitiator, cat(seq(seed), seq(peerSeed)), cat(seq(peerSeed), seq(seed)))
+//@   ghost ISEC := HASH(2, empty, cat(initiatorKdfString, COMB, initiatorKdfString))
+//@   ghost RSEC := HASH(2, empty, cat(responderKdfString, COMB, responderKdfString))
+//@   assert_at hsKdf#1 [C14:comb_seed_order] len(arg1) == 32 && cat(sub(seq(arg1), 0, 16), sub(seq(arg1), 16, 32)) == COMB
+//@   ensures [C14:never_fails] err == nil
+//@   ensures [C14:session_keys] conn.isInitiator ==> conn.tx.S.skey == sub(ISEC, 0, 16) && conn.tx.S.siv == sub(ISEC, 16, 32) && conn.rx.S.skey == sub(RSEC, 0, 16) && conn.rx.S.siv == sub(RSEC, 16, 32)
+//@   ensures [C14:session_keys_responder] !conn.isInitiator ==> conn.tx.S.skey == sub(RSEC, 0, 16) && conn.tx.S.siv == sub(RSEC, 16, 32) && conn.rx.S.skey == sub(ISEC, 0, 16) && conn.rx.S.siv == sub(ISEC, 16, 32)
+//@   ensures [C14:streams_start_at_zero] conn.tx.S.spos == 0 && conn.rx.S.spos == 0 && txOK(conn) && rxOK(conn)
+
+//@ func (*obfs2Conn).Read(conn, b) (n, err)
+//@   serves C14 C10
+//@   requires conn != nil && conn.Conn != nil && whole(conn) && rxOK(conn)
+//@   modifies conn.rx.S.spos, conn.Conn.rd, conn.Conn.nreads, elems(b), blocked
+//@   ensures 0 <= n && n <= len(b)
+//@   ensures [C14:rx_decrypts_in_order] len(conn.Conn.rd) == len(old(conn.Conn.rd)) + n && sub(conn.Conn.rd, 0, len(old(conn.Conn.rd))) == old(conn.Conn.rd)
+//@       && seq(b[0:n]) == CTR(conn.rx.S.skey, conn.rx.S.siv, old(conn.rx.S.spos), sub(conn.Conn.rd, len(old(conn.Conn.rd)), len(conn.Conn.rd)))
+//@       && conn.rx.S.spos == old(conn.rx.S.spos) + n
+
+//@ func (*obfs2Conn).Write(conn, b) (n, err)
+//@   serves C14 C10
+//@   requires conn != nil && conn.Conn != nil && whole(conn) && txOK(conn)
+//@   modifies conn.tx.S.spos, conn.Conn.wr, conn.Conn.nwrites
+//@   ensures 0 <= n && n <= len(b) && (err == nil ==> n == len(b))
+//@   ensures [C14:tx_encrypts_in_order] conn.Conn.wr == cat(old(conn.Conn.wr), sub(CTR(conn.tx.S.skey, conn.tx.S.siv, old(conn.tx.S.spos), seq(b)), 0, n))
+//@       && conn.tx.S.spos == old(conn.tx.S.spos) + len(b)
+
+// The key establishment message of the obfs2 specification, as an independent implementation reads it:
+//   SEED | E(PAD_KEY, UINT32(MAGIC_VALUE) | UINT32(PADLEN) | WR(PADLEN)),  PADLEN <= 8192,
+//   PAD_KEY|PAD_IV = MAC(pad string of the sender's role, SEED)
+// msgOK(M, padstr): M is such a message (header decrypts to the magic value and to the exact padding length)
+//@ pred msgOK(M, padstr) := len(M) >= 24 && len(M) - 24 <= 8192 && CTR(sub(HASH(2, empty, cat(padstr, sub(M, 0, 16), padstr)), 0, 16), sub(HASH(2, empty, cat(padstr, sub(M, 0, 16), padstr)), 16, 32), 0, sub(M, 16, 24)) == cat(be32(737528446), be32(len(M) - 24))
+
+//@ func (*obfs2Conn).handshake(conn) (err)
+//@   serves C14 C10
+//@   requires conn != nil && conn.Conn != nil && whole(conn) && !typeis(conn.Conn, "*obfs2.obfs2Conn")
+//@   modifies conn.tx, conn.rx, conn.Conn.*, blocked
+//@   assert_at obfs2Conn).Write#1 [C14:blob_layout] len(arg1) >= 8 && len(arg1) - 8 <= 8192 && sub(seq(arg1), 0, 8) == cat(be32(737528446), be32(len(arg1) - 8))
+//@   assert_at fmt.Errorf#1 [C14:only_wrong_magic_rejected] peerMagic != 737528446
+//@   assert_at fmt.Errorf#2 [C14:only_oversized_padding_rejected] padLen > 8192
+//@   ghost WR := conn.Conn.wr
+//@   ghost RD := conn.Conn.rd
+//@   ensures [C14:sent_message] err == nil ==> len(conn.Conn.wr) >= len(WR) && sub(conn.Conn.wr, 0, len(WR)) == WR && msgOK(sub(conn.Conn.wr, len(WR), len(conn.Conn.wr)), ite(conn.isInitiator, initiatorPadString, responderPadString))
+//@   ensures [C14:received_message] err == nil ==> len(conn.Conn.rd) >= len(RD) && sub(conn.Conn.rd, 0, len(RD)) == RD && msgOK(sub(conn.Conn.rd, len(RD), len(conn.Conn.rd)), ite(conn.isInitiator, responderPadString, initiatorPadString))
+//@   ensures [C14:established] err == nil ==> txOK(conn) && rxOK(conn) && conn.tx.S.spos == 0 && conn.rx.S.spos == 0
+
+//@ func newObfs2ClientConn(conn) (c, err)
+//@   serves C14 C10
+//@   requires conn != nil && !typeis(conn, "*obfs2.obfs2Conn")
+//@   modifies conn.*, blocked, now
+//@   ensures [C14:client_is_initiator] err == nil ==> c != nil && fresh(c) && c.isInitiator && c.Conn == conn && txOK(c) && rxOK(c) && c.tx.S.spos == 0 && c.rx.S.spos == 0
+//@   ensures [C14:deadline_disarmed] err == nil ==> conn.deadline == 0
+//@   ensures (err == nil) == (c != nil)
+
+//@ func newObfs2ServerConn(conn) (c, err)
+//@   serves C14 C10
+//@   requires conn != nil && !typeis(conn, "*obfs2.obfs2Conn")
+//@   modifies conn.*, blocked, now
+//@   ensures [C14:server_is_responder] err == nil ==> c != nil && fresh(c) && !c.isInitiator && c.Conn == conn && txOK(c) && rxOK(c) && c.tx.S.spos == 0 && c.rx.S.spos == 0
+//@   ensures [C14:deadline_disarmed] err == nil ==> conn.deadline == 0
+//@   ensures (err == nil) == (c != nil)
+
+// Stream integrity over the contracts: the bytes one side passes to Write in chunks a, b (raw stream
+// position o) and the peer decrypts in ONE read of the concatenated ciphertext - or the other way
+// round - come out as cat(a, b): the segmentation of the underlying stream does not matter.
+//@ lemma obfs2_stream_roundtrip
+//@   serves C14
+//@   vars k BSeq, v BSeq, o Int, a BSeq, b BSeq
+//@   ensures [coalesced_read] CTR(k, v, o, cat(CTR(k, v, o, a), CTR(k, v, o + len(a), b))) == cat(a, b)
+//@   ensures [split_read] cat(CTR(k, v, o, sub(CTR(k, v, o, cat(a, b)), 0, len(a))), CTR(k, v, o + len(a), sub(CTR(k, v, o, cat(a, b)), len(a), len(a) + len(b)))) == cat(a, b)
